@@ -239,9 +239,14 @@ def slice_len(sl: TupleV, n: Dim, st: State, interp: Any) -> Dim | None:
         if d is None:
             return "?"
         i = d.as_int()
-        if i is not None and i < 0:
-            return n + i
-        return d
+        if i is not None:
+            return n + i if i < 0 else d
+        # a symbolic bound: its sign decides whether it counts from the end
+        if st.decide(d, "<") is True:
+            return st.norm(n + d)
+        if st.decide(d, ">=") is True:
+            return d
+        return "?"
 
     a, b = pos(lo), pos(hi)
     if a == "?" or b == "?":
